@@ -112,9 +112,9 @@ Fixpoint pm_get (m : pmsg) (k : list N) : option bt :=
 Inductive setype :=
 | MSD (e : N) | CSD (e : N) | CDb (e imm : N) | CTx (e b : N) | CBTx (e b off : N).
 
-(* FALLBACK (translator request agents/c04_translator_request.md): database index of
-   CardanoBlocksTransactions, the only variant whose index feed_hash emits *)
-Definition ENTITY_TYPE_CARDANO_BLOCKS_TRANSACTIONS : N := 5.
+(* ENTITY_TYPE_CARDANO_BLOCKS_TRANSACTIONS (database index of CardanoBlocksTransactions, the only variant
+   whose index feed_hash emits) comes from MV.Gen.Consts, i.e. from the source; the shape of feed_hash the
+   model is written against is pinned by C04_feed_hash_tie in Properties.v *)
 
 Definition feed_hash (t : setype) : list N :=
   match t with
